@@ -208,7 +208,7 @@ def run_property(prop, tier, seed, jobs=None, only=None):
     # ---- replay files
     replay_paths = []
     if unlisted:
-        rdir = os.path.join(VERIF_DIR, "replays", prop)
+        rdir = os.path.join(os.environ.get("VERIF_EVIDENCE_DIR") or VERIF_DIR, "replays", prop)
         os.makedirs(rdir, exist_ok=True)
         bymech = collections.OrderedDict()
         for v in unlisted:
@@ -239,8 +239,10 @@ def run_property(prop, tier, seed, jobs=None, only=None):
         "wall_s": round(wall, 2),
         "violations": int(n_unlisted),
     }
-    os.makedirs(os.path.join(VERIF_DIR, "evidence"), exist_ok=True)
-    evp = os.path.join(VERIF_DIR, "evidence", prop + ".json")
+    # (VERIF_EVIDENCE_DIR is only for runs against scratch copies of the repository: mutant self-tests must not overwrite real evidence)
+    evdir = os.environ.get("VERIF_EVIDENCE_DIR") or os.path.join(VERIF_DIR, "evidence")
+    os.makedirs(evdir, exist_ok=True)
+    evp = os.path.join(evdir, prop + ".json")
     with open(evp + ".tmp", "w") as f:
         json.dump(ev, f, indent=1, sort_keys=False)
     os.replace(evp + ".tmp", evp)
